@@ -529,7 +529,7 @@ type c09LitSpec struct {
 }
 
 func c09Unit(r *fw.Run, p *fw.Program) {
-	ru := r.Rule("C09.unit", "unit arithmetic: length/size = r.Len/unit, start = r.Start/unit, stop = ceil((r.Start+r.Len)/unit); slice = (r.Start+start*unit, (end-start)*unit) keeping reader and unit; bits/bytes keys keep reader and range with unit 1/8; every other Binary construction (NewBinaryFromBitReader, openFile; decode value _bits/_bytes/ToBinary all over RootReader and InnerRange()) has the specified reader, range and unit; binaries are converted to readers by exactly their (r.Start, r.Len); slices and the bits/bytes/decode-value views carry no padding (pad unset); Binary.ToBinary is the receiver itself", 18)
+	ru := r.Rule("C09.unit", "unit arithmetic: length/size = r.Len/unit, start = r.Start/unit, stop = ceil((r.Start+r.Len)/unit); slice = (r.Start+start*unit, (end-start)*unit) keeping reader and unit; bits/bytes keys keep reader and range with unit 1/8; every other Binary construction (NewBinaryFromBitReader, openFile; decode value _bits/_bytes/ToBinary all over RootReader and InnerRange()) has the specified reader, range and unit; binaries are converted to readers by exactly their (r.Start, r.Len); slices and the bits/bytes/decode-value views carry no padding (pad unset); Binary.ToBinary is the receiver itself; each of these functions/arms returns nothing but that construction (or the zero value with an error; null for the bit views of a synthetic decode value): no shortcut hands out the receiver unsliced", 22)
 
 	// summary used below: Range.Stop() = Start + Len
 	if fn := c09Fn(ru, p, "(pkg/ranges.Range).Stop"); fn != nil {
@@ -625,22 +625,53 @@ func c09Unit(r *fw.Run, p *fw.Program) {
 			continue
 		}
 		// the literal is what is returned
-		returned := false
-		for _, rt := range c09Returns(fn) {
-			for _, res := range rt.Results {
-				v := c09StripIface(res)
-				if s.litOf(v) == hit {
-					returned = true
-				}
-				// returned through a result variable the literal was assigned to
-				if ld, isLd := v.(*ssa.UnOp); isLd && ld.Op == token.MUL {
-					if a2, isA := ld.X.(*ssa.Alloc); isA && !c09Escapes(a2) {
-						if st := c09WholeStore(a2); st != nil && s.litOf(st.Val) == hit {
-							returned = true
-						}
+		isHit := func(v ssa.Value) bool {
+			if s.litOf(v) == hit {
+				return true
+			}
+			// returned through a result variable the literal was assigned to
+			if ld, isLd := v.(*ssa.UnOp); isLd && ld.Op == token.MUL {
+				if a2, isA := ld.X.(*ssa.Alloc); isA && !c09Escapes(a2) {
+					if st := c09WholeStore(a2); st != nil && s.litOf(st.Val) == hit {
+						return true
 					}
 				}
 			}
+			return false
+		}
+		returned := false
+		for _, rt := range c09Returns(fn) {
+			for _, res := range rt.Results {
+				if isHit(c09StripIface(res)) {
+					returned = true
+				}
+			}
+		}
+		// and nothing else is: no shortcut hands out a binary (e.g. the receiver) that was not
+		// built by the checked construction. Allowed besides it: the zero value together with an
+		// error, and null for the bit views of a decode value (synthetic values, decided by C05).
+		// The bits/bytes arms of Binary.JQValueKey are closed by the "-same" obligations below.
+		if !(sp.arm != "" && sp.fn == "(pkg/interp.Binary).JQValueKey") {
+			okC, whyC, nRet := true, "", 0
+			for _, rt := range c09Returns(fn) {
+				if len(rt.Results) == 0 || (sp.arm != "" && c09Arm(rt.Block(), name) != sp.arm) {
+					continue
+				}
+				nRet++
+				v := c09StripIface(rt.Results[0])
+				zero := false
+				if c, isC := v.(*ssa.Const); isC && c.Value == nil {
+					zero = true
+				}
+				switch {
+				case isHit(v):
+				case len(rt.Results) == 2 && zero && !c09IsNilConst(rt.Results[1]):
+				case sp.arm != "" && zero && len(rt.Results) == 1:
+				default:
+					okC, whyC = false, "a return ("+p.Rel(rt.Pos())+") hands out "+s.Desc(v)+" instead of the constructed Binary"
+				}
+			}
+			ru.Check(okC && nRet >= 1, "returns:"+strings.TrimPrefix(key, "lit:"), p.Rel(fn.Pos()), fmt.Sprintf("%d returns: the constructed Binary, or a failure", nRet), "Binary construction bypassed: "+whyC+" (want only "+sp.lit.String()+")")
 		}
 		ok, why := s.matchLit(hit, sp.lit)
 		if ok && !returned {
